@@ -138,6 +138,17 @@ func (fc *FnCtx) trModel(st *State, call *ast.CallExpr, fn *types.Func, recvExpr
 		return vs
 	}
 	switch full {
+	case "os.ReadFile":
+		vs := args()
+		c := fc.freshVal(st, "filedata", SStr, nil)
+		e := fc.freshVal(st, "rerr", SInt, nil)
+		if vs[0].S == SStr {
+			// content is a function of the path and of the number of writes so far
+			fc.w.needFsRead = true
+			st.addAssume("(=> (= " + e.T + " 0) (= " + c.T + " (fsread " + vs[0].T + " " + fc.fsWrites(st).T + ")))")
+		}
+		st.env["ghost.lastRead"] = c
+		return []Val{c, e}, true
 	case "os.WriteFile":
 		vs := args()
 		fc.noteWrite(st, &vs[0], &vs[1])
@@ -200,7 +211,7 @@ func (fc *FnCtx) trModel(st *State, call *ast.CallExpr, fn *types.Func, recvExpr
 			src := fc.bufGet(st, vs[0])
 			st.env[sc.Rec+".src"] = src
 			// link to the spec function of line splitting when it is declared
-			if sf := fc.w.specByName["regex.SpecScanLines"]; sf != nil {
+			if sf := fc.w.specByName["utils.OpaqueScanLines"]; sf != nil {
 				fc.w.useSpec(sf)
 				st.addAssume("(= " + lines.T + " (" + sf.smtName + " " + src.T + "))")
 			}
@@ -231,6 +242,10 @@ func (fc *FnCtx) trModel(st *State, call *ast.CallExpr, fn *types.Func, recvExpr
 			return []Val{intVal("0")}, true
 		case "WriteRune":
 			vs := args()
+			if n, err := strconv.Atoi(vs[0].T); err == nil && n >= 0 && n < 128 {
+				fc.bufSet(st, b, "(appendbyte "+cur.T+" "+vs[0].T+")")
+				return []Val{intVal("1"), intVal("0")}, true
+			}
 			// exact for ASCII; otherwise 2..4 bytes >= 128
 			r := fc.freshVal(st, "wr", SStr, nil)
 			st.addAssume("(=> (and (<= 0 " + vs[0].T + ") (< " + vs[0].T + " 128)) (= " + r.T + " (appendbyte " + cur.T + " " + vs[0].T + ")))")
@@ -280,9 +295,17 @@ func (fc *FnCtx) trModel(st *State, call *ast.CallExpr, fn *types.Func, recvExpr
 			f2 := fc.declare("scan_failed", SBool)
 			st.addAssume("(=> " + b + " (and (< " + pos.T + " (sllen " + lines.T + ")) (not " + failed.T + ")))")
 			st.addAssume("(=> (not " + b + ") (or " + f2 + " (= " + pos.T + " (sllen " + lines.T + "))))")
-			st.env[sc.Rec+".failed"] = boolVal("(ite " + b + " " + failed.T + " (or " + failed.T + " " + f2 + "))")
-			st.env[sc.Rec+".cur"] = Val{T: "(ite " + b + " (sat_ " + lines.T + " " + pos.T + ") " + cur.T + ")", S: SStr}
-			st.env[sc.Rec+".pos"] = intVal("(ite " + b + " (+ " + pos.T + " 1) " + pos.T + ")")
+			nf := fc.declare("scan_failed_now", SBool)
+			st.addAssume("(= " + nf + " (ite " + b + " " + failed.T + " (or " + failed.T + " " + f2 + ")))")
+			st.env[sc.Rec+".failed"] = boolVal(nf)
+			ncur := fc.freshVal(st, "scan_text", SStr, nil)
+			st.addAssume("(=> " + b + " (= " + ncur.T + " (sat_ " + lines.T + " " + pos.T + ")))")
+			st.addAssume("(=> (not " + b + ") (= " + ncur.T + " " + cur.T + "))")
+			st.env[sc.Rec+".cur"] = ncur
+			npos := fc.declare("scan_pos", SInt)
+			st.addAssume("(=> " + b + " (= " + npos + " (+ " + pos.T + " 1)))")
+			st.addAssume("(=> (not " + b + ") (= " + npos + " " + pos.T + "))")
+			st.env[sc.Rec+".pos"] = intVal(npos)
 			return []Val{boolVal(b)}, true
 		case "Text", "Bytes":
 			return []Val{get("cur", types.Typ[types.String])}, true
